@@ -124,6 +124,9 @@ def obligations(tier):
             if tier == "quick":
                 # one shape per class: the largest quick shape
                 shapes = shapes[-1:]
+                if framing == "rtu" and S.name in ("ReadHoldingRegistersResponse", "WriteMultipleRegistersRequest"):
+                    # ... and, on RTU, the maximum-size frame (255 / 256 bytes on the wire): size limits live there
+                    shapes = shapes + [S.shapes("thorough")[-1]]
             for shape in shapes:
                 key = "%s.%s" % (framing, S.key(shape))
                 contracts = CONTRACTS[framing] + (("bits",) if needs_bits(S) else ())
